@@ -105,41 +105,41 @@ let line_search toks =
   | _ -> "?"
 
 (* ---- L-BFGS ---- *)
-let lb_str (m : lb_model) =
+let lb_str (m : q glb_model) =
   Printf.sprintf " nh=%d bdiag=%s hk=%d hs=%s hy=%s" (int_of_nat m.lb_hist) (q_str m.lb_bdiag) (List.length m.lb_pairs)
     (String.concat "," (List.map (fun (s, _) -> v_str s) m.lb_pairs)) (String.concat "," (List.map (fun (_, y) -> v_str y) m.lb_pairs))
 
-(* B <n> <nh> <box> | bdiag thres | hs (k*n) | hy (k*n) | y | s | g | l | u | x
-   ONE call of the model's updateHist + direction rule on the implementation's own previous state (tools/c10.py builds
-   the line from two consecutive state lines of the harness) *)
+(* ---- the generic model functions of C10Gen.v instantiated with IEEE doubles ---- *)
+let fops : float ops =
+  { o_zero = 0.0; o_one = 1.0; o_add = ( +. ); o_sub = ( -. ); o_mul = ( *. ); o_div = ( /. ); o_neg = (fun x -> -. x);
+    o_ltb = (fun a b -> a < b); o_eqb = (fun a b -> a = b); o_sqrt = sqrt; o_pow = (fun a k -> a ** float_of_int (int_of_nat k)) }
+let f_str x = Printf.sprintf "%h" x
+let fv_str v = String.concat "," (List.map f_str v)
+let fnum s = float_of_string s
+
+(* B <n> <nh> <box> | bdiag thres | hs (k*n) | hy (k*n) | y | s | g | l | u | x      (hex floats)
+   ONE call of the model's updateHist + direction rule (g_update_hist, g_mult_binv / g_box_dir) on the implementation's
+   own previous state (tools/c10.py builds the line from two consecutive state lines of the harness) *)
 let lbfgs_replay toks =
   match split_groups toks with
   | [[ns; nh; box]; [bd; th]; hs; hy; yl; sl; gl; ll; ul; xl] ->
     let n = int_of_string ns in
-    let v = List.map parse_num in
+    let v = List.map fnum in
     let pairs = List.combine (chunk n (v hs)) (chunk n (v hy)) in
-    let m = { lb_hist = nat_of_int (int_of_string nh); lb_bdiag = parse_num bd; lb_thres = parse_num th; lb_pairs = pairs } in
+    let m = { lb_hist = nat_of_int (int_of_string nh); lb_bdiag = fnum bd; lb_thres = fnum th; lb_pairs = pairs } in
     let y = v yl and s = v sl and g = v gl in
-    let m' = lb_update_hist m y s in
-    let d = if box = "1" then lb_box_dir m'.lb_bdiag m'.lb_pairs (v ll) (v ul) (v xl) g
-            else lb_mult_binv m'.lb_bdiag m'.lb_pairs (List.map qopp g) in
-    (* which branch of getBoxConstrainedDirection (coverage only) *)
-    let branch =
-      if box <> "1" then "free" else begin
-        let l = v ll and u = v ul and x = v xl in
-        let mk = lb_mask l u x (List.map qopp g) in
-        let p0 = vmask mk (List.map qopp g) in
-        let step = vmask mk (lb_mult_binv m'.lb_bdiag m'.lb_pairs p0) in
-        let inact = List.length (List.filter not mk) in
-        if lb_step_ok mk l u x step then Printf.sprintf "full%s" (if inact > 0 then "+fixed" else "")
-        else begin
-          let cauchy = vdiv p0 (dot p0 (lb_mult_b m'.lb_bdiag m'.lb_pairs p0)) in
-          let alpha = lb_ratio mk l u x cauchy { qnum = Zpos XH; qden = XH } in
-          if qle_bool { qnum = Zpos XH; qden = XH } alpha then "dogleg" else if (qred alpha).qnum = Z0 then "cauchy0" else "cauchy"
-        end
-      end in
-    Printf.sprintf "ys=%s%s dir=%s branch=%s stored=%d" (q_str (dot y s)) (lb_str m') (v_str d) branch
-      (if qle_bool (dot y s) m.lb_thres then 0 else 1)
+    let m' = g_update_hist fops m y s in
+    let eps = 1e-13 in
+    let d = if box = "1" then g_box_dir fops eps m'.lb_bdiag m'.lb_pairs (v ll) (v ul) (v xl) g
+            else g_mult_binv fops m'.lb_bdiag m'.lb_pairs (gvneg fops g) in
+    let branch = if box <> "1" then "free" else
+        (match int_of_nat (g_box_branch fops eps m'.lb_bdiag m'.lb_pairs (v ll) (v ul) (v xl) g) with
+         | 0 -> if List.exists not (g_mask fops eps (v ll) (v ul) (v xl) (gvneg fops g)) then "full+fixed" else "full"
+         | 1 -> "cauchy" | _ -> "dogleg") in
+    Printf.sprintf "nh=%d bdiag=%s hk=%d hs=%s hy=%s dir=%s branch=%s stored=%d" (int_of_nat m'.lb_hist) (f_str m'.lb_bdiag)
+      (List.length m'.lb_pairs) (String.concat "," (List.map (fun (s, _) -> fv_str s) m'.lb_pairs))
+      (String.concat "," (List.map (fun (_, y) -> fv_str y) m'.lb_pairs)) (fv_str d) branch
+      (if fops.o_ltb m.lb_thres (gdot fops y s) then 1 else 0)
   | _ -> "?"
 
 (* the exact rationals of an L-BFGS history square in size with every stored pair: the model stops following a history
@@ -150,7 +150,7 @@ let v_bits v = List.fold_left (fun a x -> max a (q_bits x)) 0 v
 
 type st =
   | NoModel
-  | LsLbfgs of lb_model ls_state * (vec * vec) option
+  | LsLbfgs of q glb_model ls_state * (vec * vec) option
   | LsBfgs of vec list ls_state
   | LsSd of unit ls_state
   | LsCg of nat ls_state
